@@ -402,7 +402,7 @@ func c05GcOff(a c05Ans, t time.Duration) bool {
 func c05RunPoint(in c05PointIn, verbose bool) c05Verdict {
 	a, lazy, t := in.Ans, in.Lazy, time.Duration(in.TNs)
 	var first, obs c05Obs
-	var stored int
+	var stored, swept int
 	var bgStarted, overlap int
 	var calls int
 	x := vs.Run1(c05Cfg, func() {
@@ -423,6 +423,7 @@ func c05RunPoint(in c05PointIn, verbose bool) c05Verdict {
 		}
 		vs.Advance(t)
 		c05Yield()
+		swept = c.backend.Len()
 		n := len(u.calls)
 		obs = c05Query(c, u, 0x1002)
 		c05Yield()
@@ -456,7 +457,7 @@ func c05RunPoint(in c05PointIn, verbose bool) c05Verdict {
 	}
 	if verbose {
 		fmt.Println(show())
-		fmt.Printf("reference: admit=%v (%s) lifetime=%ds; entries in store after the first query: %d; background fetches after the second query: %d\n", admit, why, life, stored, bgStarted)
+		fmt.Printf("reference: admit=%v (%s) lifetime=%ds; entries in store after the first query: %d, before the second query (after the sweeper ran): %d; background fetches after the second query: %d\n", admit, why, life, stored, swept, bgStarted)
 	}
 	if first.Hit {
 		v.Sig, v.Desc = "hit-on-empty-cache/"+cls, "first query on an empty cache was served from cache; "+show()
@@ -473,13 +474,12 @@ func c05RunPoint(in c05PointIn, verbose bool) c05Verdict {
 		return v
 	}
 	if !obs.Hit {
-		if bgStarted != 0 {
-			v.Sig, v.Desc = "refresh-on-miss/"+cls, "a miss started a background fetch; "+show()
-			return v
-		}
 		res := "miss"
 		if stored == 0 {
 			res = "miss-not-stored"
+		}
+		if bgStarted != 0 {
+			res += "+bgfetch" // not forbidden by the property
 		}
 		v.Outcome = key(res)
 		return v
@@ -709,10 +709,10 @@ func c05RunSeq(in c05SeqIn, verbose bool) c05Verdict {
 		}
 		if !st.obs.Hit {
 			if st.bgNew != 0 {
-				v.Sig, v.Desc = "seq/refresh-on-miss/"+cls, desc("a miss started a background fetch")
-				return v
+				path = append(path, "miss+bgfetch") // not forbidden by the property
+			} else {
+				path = append(path, "miss")
 			}
-			path = append(path, "miss")
 			continue
 		}
 		if !st.model.has || st.obs.Resp == nil {
